@@ -8,13 +8,13 @@ from common import Infra
 LEVEL = "model_checking"
 
 # family -> (quick sample size, thorough sample size)  (only used by the sampled "deep" families)
-FAMILIES = {"src1": (0, 0), "src2": (150, 1500), "dst1": (0, 0), "dst2": (60, 600), "prog2": (0, 0)}
+FAMILIES = {"src1": (0, 0), "src2": (150, 1500), "dst1": (0, 0), "dst2": (60, 600), "prog2": (0, 0), "prog": (0, 0), "corrupt": (20000, 300000)}
 
 PROPS = {
-    "C01": dict(families=["src1", "src2", "prog2"], invs=["C01_NeverOverdrawn", "C01_RejectedWhole"]),
+    "C01": dict(families=["src1", "src2", "prog2", "prog"], invs=["C01_NeverOverdrawn", "C01_RejectedWhole"]),
     "C03": dict(families=["dst1", "dst2", "src1"], invs=["C03_NoNegative", "C03_PerDestination", "C03_PerSource", "C03_Amount"]),
-    "C08": dict(families=["src1", "src2", "dst1", "dst2", "prog2"], invs=["C08_SameAsSource", "C08_RefusedNotRun", "C08_BigValues"]),
-    "C12": dict(families=["src1", "src2", "dst1", "dst2", "prog2"], invs=["C12_NoPanicNoHang", "C12_DefinedClass", "C12_Repeatable"]),
+    "C08": dict(families=["src1", "src2", "dst1", "dst2", "prog2", "prog"], invs=["C08_SameAsSource", "C08_SameMetadata", "C08_RefusedNotRun", "C08_BigValues"]),
+    "C12": dict(families=["src1", "src2", "dst1", "dst2", "prog2", "prog", "corrupt"], invs=["C12_NoPanicNoHang", "C12_DefinedClass", "C12_Repeatable"]),
 }
 
 
@@ -28,6 +28,8 @@ def obs_cfg(resfile):
 
 
 def shape(r):
+    if "kinds" in r:
+        return "%s/exp=%s/program:%s" % (r["real"]["class"].split(":")[0], r["exp"]["class"], r["kinds"])
     s = r["sends"][0]
     def dkind(d):
         k = d["t"]
@@ -43,8 +45,31 @@ def family_run(ctx, fam, binp):
     thorough = ctx.tier == "thorough"
     n = FAMILIES[fam][1 if thorough else 0]
     cases = ctx.path("cases-%s.ndjson" % fam)
-    g = ctx.tlc("NumscriptGen", gen_cfg(fam, cases, n), "gen-" + fam, workers=4, timeout=2400,
-                extra=["-seed", str(ctx.seed)])
+    if fam == "corrupt":
+        # corrupted renderings of the model's programs: generated from the cases of two families
+        g = ctx.tlc("NumscriptProgGen", "SPECIFICATION Spec\nCONSTANTS\n  OutFile = \"%s\"\n  SampleN = 0\nPOSTCONDITION Emit\nCHECK_DEADLOCK FALSE\n" % cases,
+                    "gen-corrupt-a", workers=4, timeout=2400)
+        cases2 = ctx.path("cases-corrupt-b.ndjson")
+        g2 = ctx.tlc("NumscriptGen", gen_cfg("dst1", cases2, 0).replace("INVARIANTS LawC01 LawNoNegative LawC03Amount\n", ""), "gen-corrupt-b", workers=4, timeout=2400)
+        if g["status"] != "ok" or g2["status"] != "ok":
+            raise Infra("generation for the corrupt family failed")
+        with open(cases, "a") as f:
+            f.write(open(cases2).read())
+        res = ctx.path("results-%s.ndjson" % fam)
+        ctx.run([binp, "-in", cases, "-corrupt", str(n), "-seed", str(ctx.seed), "-out", res, "-stats", ctx.path("stats-%s.json" % fam)], timeout=2400)
+        o = ctx.tlc("NumscriptObs", obs_cfg(res), "obs-" + fam, workers=1, timeout=2400)
+        if o["status"] != "ok" or "OBS-VERDICT" not in o["output"]:
+            raise Infra("NumscriptObs did not deliver a verdict on %s (%s)" % (fam, o["status"]))
+        verdict = o["output"].split("OBS-VERDICT", 1)[1].split("OBS-COUNTS")[0]
+        found = [(m.group(1), int(m.group(2))) for m in re.finditer(r'<<"(\w+)", (\d+)>>', verdict)]
+        counts = dict((m.group(1), int(m.group(2))) for m in re.finditer(r'(\w+) \|-> (\d+)', o["output"].split("OBS-COUNTS", 1)[1]))
+        return fam, {"distinct": 0}, res, found, counts, json.load(open(ctx.path("stats-%s.json" % fam)))
+    if fam == "prog":
+        g = ctx.tlc("NumscriptProgGen", "SPECIFICATION Spec\nCONSTANTS\n  OutFile = \"%s\"\n  SampleN = %d\nINVARIANTS LawRejectedWhole LawNeverOverdrawn\nPOSTCONDITION Emit\nCHECK_DEADLOCK FALSE\n" % (cases, n),
+                    "gen-" + fam, workers=4, timeout=2400, extra=["-seed", str(ctx.seed)])
+    else:
+        g = ctx.tlc("NumscriptGen", gen_cfg(fam, cases, n), "gen-" + fam, workers=4, timeout=2400,
+                    extra=["-seed", str(ctx.seed)])
     if g["status"] != "ok":
         raise Infra("Numscript reference semantics violates its own law %s on family %s - specification error" % (g.get("invariant"), fam))
     if not os.path.exists(cases) or os.path.getsize(cases) == 0:
@@ -89,7 +114,10 @@ def run_prop(ctx, prop):
                 what = "%s fails on the real compiler+VM: program %r balances %s -> real %s ; the source defines %s" % (
                     inv, r["text"], json.dumps(r["bal"]), json.dumps(r["real"])[:300], json.dumps(r["exp"])[:300])
                 ctx.violation(sig, what, {"kind": "numscript-case", "family": fam,
-                                          "case": {"sends": r["sends"], "bal": r["bal"], "exp": r["exp"]}, "text": r["text"]})
+                                          "case": {"sends": r["sends"], "bal": r["bal"], "exp": r["exp"]}, "text": r["text"],
+                                          "vars": r.get("vars", {})})
+    if prop == "C08":
+        cache_part(ctx, binp)
     if total < 1000:
         raise Infra("only %d cases replayed" % total)
     if classes.get("ok", 0) < 100 or classes.get("insufficient", 0) < 10 or classes.get("compile-error", 0) < 10:
@@ -100,6 +128,7 @@ def run_prop(ctx, prop):
         "rule": "cases = (program AST, balance table) enumerated by TLC from the bounded families %s of NumscriptGen.tla (exhaustive at depth <= 1-2, RandomSubset beyond); each rendered to Numscript text and run through the real compile+VM pipeline (twice, plus once scaled by 2^70 when it has no portions); distinct = distinct program texts" % P["families"],
         "real_outcome_classes": classes, "predicate_failures": {k: v for k, v in allcounts.items() if k in P["invs"]},
         "samples": samples[:3], "exhaustive": all(FAMILIES[f] == (0, 0) for f in P["families"]),
+        "sampled_part": "family `corrupt` (when listed) = seeded token/byte corruptions of the model's program texts and variable values; TLA+ does not predict their outcome, only no-panic / no-hang / reported-error / repeatability is judged",
         "deciding_predicates": P["invs"],
     })
     ctx.assumptions += [
@@ -107,6 +136,31 @@ def run_prop(ctx, prop):
         "amounts beyond 64 bits are reached by re-running portion-free cases scaled by 2^70 (metamorphic), not by TLC integers",
         "the Numscript printer of the harness (AST -> text) is trusted",
     ]
+
+
+def cache_part(ctx, binp):
+    """C08, last sentence: the compilation cache under every capacity and concurrent use."""
+    thorough = ctx.tier == "thorough"
+    cases = ctx.path("cache-cases.ndjson")
+    g = ctx.tlc("Cache", "SPECIFICATION Spec\nCONSTANTS\n  Texts = {\"t1\", \"t2\", \"t3\", \"t4\"}\n  Caps = {1, 2, 3, 1024}\n  MaxLen = %d\n  OutFile = \"%s\"\nINVARIANTS SameAsFresh Bounded\nPOSTCONDITION Emit\nCHECK_DEADLOCK FALSE\n" % (5 if thorough else 4, cases),
+                "cache", workers=4, timeout=900)
+    if g["status"] != "ok":
+        raise Infra("Cache.tla failed (%s)" % g["status"])
+    res = ctx.path("cache-results.ndjson")
+    ctx.run([binp, "-cache", "-in", cases, "-out", res, "-stats", ctx.path("cache-stats.json")], timeout=1800)
+    st = json.load(open(ctx.path("cache-stats.json")))
+    o = ctx.tlc("CacheObs", "SPECIFICATION OSpec\nCONSTANTS\n  ResultFile = \"%s\"\n  MaxReport = 3\nPOSTCONDITION Post\nCHECK_DEADLOCK FALSE\n" % res, "cache-obs", workers=1, timeout=900)
+    if o["status"] != "ok" or "OBS-VERDICT" not in o["output"]:
+        raise Infra("CacheObs did not deliver a verdict")
+    verdict = o["output"].split("OBS-VERDICT", 1)[1].split("OBS-COUNTS")[0]
+    lines = common.read_ndjson(res)
+    for m in re.finditer(r'<<"(\w+)", (\d+)>>', verdict):
+        r = lines[int(m.group(2)) - 1]
+        ctx.violation("%s@cap=%s" % (m.group(1), "small" if r["cap"] < 100 else "large"),
+                      "%s fails: a program obtained from command.Compiler (capacity %d, requests %s) does not behave like a fresh compilation of its text" % (m.group(1), r["cap"], r["reqs"]),
+                      {"kind": "cache-sequence", "case": {"cap": r["cap"], "reqs": r["reqs"]}})
+    ctx.coverage["cache_part"] = {"request_sequences": st["sequences"], "compiles": st["gets"], "states": g.get("distinct", 0),
+                                  "rule": "every sequence of Compile requests of the stated length over 4 texts x capacities {1,2,3,1024}; each replayed sequentially and by 6 goroutines sharing the Compiler (4 rounds)"}
 
 
 def replay_prop(ctx, prop, path):
